@@ -124,3 +124,18 @@ Qed.
 (* the empty directory is a valid starting point *)
 Example empty_state_ok : state_ok (mkDir [] 0 0).
 Proof. repeat split; [constructor|intros e []]. Qed.
+
+(* the command line is a run or nothing at all, so it preserves the history invariant as well *)
+From Gopki.Model Require Import Cli.
+Lemma cli_preserves_inv d f input r d' w :
+  wf_dir (d_ents d) -> dir_inv d = true -> blind_free (d_ents d) ->
+  cli_sign true true d f input = (r, d', w) -> dir_inv d' = true.
+Proof.
+  intros W I B H. unfold cli_sign in H.
+  destruct (negb (is_consistent (d_ents d))); [inversion H; subst; exact I|].
+  destruct (negb (s_any (strat_of_flags f))); [inversion H; subst; exact I|].
+  destruct (plan true (d_ents d) (strat_of_flags f)) as [ch|]; [|inversion H; subst; exact I].
+  destruct (existsb (replaces (d_ents d)) ch && negb (consent input)); [inversion H; subst; exact I|].
+  destruct (run true true d (strat_of_flags f) None) as [[r0 d0] w0] eqn:R. inversion H; subst.
+  eapply (any_run_preserves_inv d (strat_of_flags f) None r0 d' w); eauto.
+Qed.
